@@ -122,6 +122,11 @@ def finish(ctx: Ctx, explanation: str, assumptions: list[str], extra: dict[str, 
 
     if ctx.floor_failures and not violations:
         raise AnalysisError("; ".join(ctx.floor_failures))
+    failed_norm = (getattr(ctx.repo, "normalisation", None) or {}).get("failed_passes") or []
+    if failed_norm and violations:
+        # the rules were confirmed on the canonical spelling; if the normaliser itself failed, a reported
+        # violation may be an artefact of the un-normalised spelling: no verdict rather than a possibly false alarm
+        raise AnalysisError(f"normaliser pass failed ({'; '.join(failed_norm)[:300]}) and {len(violations)} obligation(s) are undischarged on the partly normalised tree: verdict withheld")
     EVIDENCE_DIR.mkdir(exist_ok=True)
     vdir = EVIDENCE_DIR / "violations"
     seen_v: set[str] = set()
@@ -180,6 +185,7 @@ def finish(ctx: Ctx, explanation: str, assumptions: list[str], extra: dict[str, 
         "per_rule": {r: {"obligations": v[0], "discharged": v[1]} for r, v in sorted(by_rule.items())},
         "instance_floors": {r: {"found": f, "minimum": m} for r, (f, m) in sorted(ctx.instances.items())},
         "files_consulted": ctx.repo.consulted,
+        "normalisation": {k: (v if not isinstance(v, list) or len(v) <= 12 else v[:12] + [f"... {len(v) - 12} more"]) for k, v in (getattr(ctx.repo, "normalisation", None) or {}).items()},
         "analysed": ctx.analysed,
         "notes": ctx.notes,
         "known_findings_printed": sorted(printed_known),
